@@ -7,6 +7,9 @@ spec/C11/TwoPC.tla        M-spec: acceptor / proposer / network regions of twopc
 spec/C11/MCTwoPC.tla      model-checking wrapper + scopes; MC*.cfg exhaustive / simulation configurations
 spec/C11/DWReplay.tla     the double-winner schedule replayed on the model with / without the filter
 spec/C11/LCReplay.tla     the lost-Commit schedule replayed on the model with / without the Commit retry
+spec/C11/LAReplay.tla     the lost-Abort schedule replayed on the model variant "an Abort that met a transport error is not
+                          sent again once the broadcast has its quorum" (captured replica, writer blocked) and on the repaired
+                          model (the Abort is re-sent, the writer commits); MC3LostAbort.cfg: TLC searches for it (thorough)
 spec/C11/RWGen.tla        schedule generator: on the model variant "a reject reply carries the working value" TLC searches
                           for a lagging proposer that catches up from a replica with an uncommitted write (6 family members)
 spec/C11/RWReplay.tla     the six generated schedules pinned: followed on the variant (ends with two values for one
@@ -98,7 +101,7 @@ def judge(chk, work, good, bycase, stat, chunks, rounds=6):
     def one(tr):
         # the targeted schedules come first; a flood of rejections on one transport must not hide the other
         mine = [s for s in good if s[0].get("tr") == tr]
-        mine.sort(key=lambda s: 0 if s[0].get("case", "").startswith(("dw-", "rel-", "lostcommit-", "rw-", "rwgen-")) else 1)
+        mine.sort(key=lambda s: 0 if s[0].get("case", "").startswith(("dw-", "rel-", "lostcommit-", "lostabort", "rw-", "rwgen-")) else 1)
         # every rejected case costs one more TLC run of its chunk: the quick tier stops after 2 per chunk (one replay
         # per class is reported anyway; what is left unchecked is listed as inconclusive)
         boxes[tr] = V.fold_traces(work, "OneCopyObs", "OneCopyObs.cfg", mine, timeout=2400, chunks=chunks, max_rounds=rounds, jvm=LIGHT_JVM)
@@ -222,12 +225,19 @@ def run(chk):
             module="DWReplay", workers=1)
         job("LCReplay with the Commit retry: the lost-Commit schedule cannot be followed", "LCReplayRetry",
             module="LCReplay", workers=1)
+        job("LAReplay, repaired model: the lost Abort is sent again, the captured replica is released, the writer on it "
+            "commits in its first solo section (schedule followed to its end, M => P invariants on the way)",
+            "LAReplayResendFollowed", module="LAReplay", workers=1, check_deadlock=True)
         if not quick:
             job("MC2 exhaustive: 2 replicas, 2 writers x 2 sections, drop 1, duplicate 1", "MC2")
             job("MC3Faults exhaustive: 3 replicas, 2 writers x 1 section + solo phase, drop 1, duplicate 1", "MC3Faults", timeout=5400)
             job("MC3Live: every fair behaviour comes to rest (no livelock in the design)", "MC3Live", workers=2, timeout=3000)
             job("MC3PinnedLocal (expected: OneWinnerPerVersion violated without the filter)", "MC3PinnedLocal",
                 expect="OneWinnerPerVersion")
+            job("LAReplay, repaired model: the variant's lost-Abort schedule cannot be followed (not quiet after the error)",
+                "LAReplayResend", module="LAReplay", workers=1)
+            job("LAReplay on the variant 'no re-send of an Abort after the quorum' (expected: Released violated)",
+                "LAReplayNoResendReleased", module="LAReplay", workers=1, expect="Released")
 
     th = threading.Thread(target=design)
     th.start()
@@ -247,7 +257,8 @@ def run(chk):
         pre[key] = (V.tlc(d, module, cfg=cfg + ".cfg", deadlock=deadlock, jvm=LIGHT_JVM, **kw), d)
     pths = [threading.Thread(target=prejob, args=("dw", "DWReplay", "DWReplayNoFilter"), kwargs=dict(workers=1, timeout=900)),
             threading.Thread(target=prejob, args=("rel", "MCTwoPC", "MC3PinnedRPC"), kwargs=dict(workers=2, timeout=900)),
-            threading.Thread(target=prejob, args=("lc", "LCReplay", "LCReplayNoRetry"), kwargs=dict(workers=1, timeout=900))]
+            threading.Thread(target=prejob, args=("lc", "LCReplay", "LCReplayNoRetry"), kwargs=dict(workers=1, timeout=900)),
+            threading.Thread(target=prejob, args=("la", "LAReplay", "LAReplayNoResend"), kwargs=dict(workers=1, timeout=900))]
     # the class "a reply carries working instead of committed state": pinned generated schedules (one cheap run per
     # model variant) and the generator searches themselves (two family members per quick run, all six otherwise)
     pths += [threading.Thread(target=prejob, args=("rwbad", "RWReplay", "RWReplayWorking"), kwargs=dict(workers=1, timeout=900, deadlock=True)),
@@ -256,6 +267,9 @@ def run(chk):
     # the searches are the longest jobs of this phase: the driver starts on the other cases meanwhile
     gths = [threading.Thread(target=prejob, args=("rwgen_" + fam, "RWGen", "RWGen_" + fam), kwargs=dict(workers=2, timeout=1500))
             for fam in fams]
+    if not quick:
+        # the search that finds the lost-Abort schedule (1.8 M states): its counterexample is replayed as well
+        gths.append(threading.Thread(target=prejob, args=("lagen", "MCTwoPC", "MC3LostAbort"), kwargs=dict(workers=W, timeout=2400)))
     drvbox = {}
 
     def build():
@@ -288,6 +302,13 @@ def run(chk):
     if not chk.notes["model_lost_commit_blocks_writer"]:
         chk.inconclusive.append("vacuity: the model without the Commit retry no longer blocks the writer: " + str(res.error or res.violation))
     lc_acts = acts_of(res.out)
+    res = pre["la"][0]
+    chk.tlc_jobs.append(res.summary("LAReplay on the variant 'an Abort that met a transport error is not sent again once the "
+                                    "broadcast has its quorum' (expected: SoloProgress violated on the model)"))
+    chk.notes["model_lost_abort_blocks_writer"] = bool(res.violation and "SoloProgress" in res.violation)
+    if not chk.notes["model_lost_abort_blocks_writer"]:
+        chk.inconclusive.append("vacuity: the model that does not re-send an Abort after the quorum no longer blocks the writer: " + str(res.error or res.violation))
+    la_acts = acts_of(res.out)
     # reject-carries-working family: guards, pinned schedules (exported by TLC from the repaired model), generated ones
     res = pre["rwbad"][0]
     chk.tlc_jobs.append(res.summary("RWReplay on the variant 'reject reply carries the working value' (expected: every "
@@ -329,6 +350,9 @@ def run(chk):
                 cases.append(dict(script_case("rel", 3, [1, 2], rel_acts, tr, seed), solo=other))
             if len(lc_acts) > 5:
                 cases.append(dict(script_case("lostcommit", 3, [1, 2], lc_acts, tr, seed), solo=1))
+            if len(la_acts) > 5 and any(a[0] == "solo" for a in la_acts):
+                # the writer of the solo phase is the replica the lost Abort left captured (the schedule's "solo" step)
+                cases.append(script_case("lostabort", 3, [1, 2], la_acts, tr, seed))
             for name, acts in rw_scripts:
                 cases.append(script_case(name, 3, [1, 2], acts, tr, seed))
             for name, n, writers, acts in scripts:
@@ -377,6 +401,17 @@ def run(chk):
                 gen_cases.append(script_case("rwgen-" + fam.replace("_", ""), 3, [1, 2], acts, tr, seed))
         else:
             chk.inconclusive.append("vacuity: RWGen %s found no behaviour of the wanted kind: %s" % (fam, res.error or res.violation or "none"))
+    if "lagen" in pre:
+        res = pre["lagen"][0]
+        chk.tlc_jobs.append(res.summary("MC3LostAbort: search on the variant 'no re-send of an Abort after the quorum', 1 lost "
+                                        "message (expected: SoloProgress violated on the model)"))
+        chk.states += res.distinct; chk.transitions += res.generated
+        acts = acts_of(res.out)
+        if res.violation and "SoloProgress" in res.violation and any(a[0] == "solo" for a in acts):
+            for tr in ("rpc", "local"):
+                gen_cases.append(script_case("lostabortgen", 3, [1, 2], acts, tr, seed))
+        else:
+            chk.inconclusive.append("vacuity: MC3LostAbort found no captured replica: %s" % (res.error or res.violation or "none"))
     parts.append(gen_cases)
     cases += gen_cases
     if gen_cases:
@@ -455,7 +490,8 @@ def run(chk):
                  "the gate delivers one request at a time per schedule step)",
                  "shcounter.ANode under MPCalContext.Run is not part of this check (sections are issued the way Run issues them)"]
     return chk.finish(rule="schedules = TLC simulation behaviours of TwoPC.tla (3/4/5%s replicas, drops, duplicates, reordering) + the "
-                           "TLC counterexamples of the pinned-tree variants + the schedules TLC generates on the variant 'a reject reply "
+                           "TLC counterexamples of the pinned-tree variants and of the variant 'an Abort that met a transport error is not sent "
+                           "again after the quorum' (lost Abort) + the schedules TLC generates on the variant 'a reject reply "
                            "carries the working value' (RWGen: a lagging proposer catches up from a replica with an uncommitted write; "
                            "stale PreCommit / Abort / Commit) + seeded random schedules (2-%d replicas, every other one with a laggard), each run over "
                            "the RPC and the in-process transport on real NewTwoPC replicas behind a gating ReplicaHandle, drained, observed, "
